@@ -491,7 +491,15 @@ class C16(Profile):
         if not (abs(dtf - rec["dt"]) <= 0.5e-4 * (1 + 1e-6) + 1e-12):
             return "dt", "loaded dt=%r, saved dt=%r" % (dtf, rec["dt"])
         want = rec["values"]
-        got_v = np.asarray(vals, dtype=float) / m
+        if m == 0:
+            # scaled by zero: every sample is zero (a scale factor that is "falsy" is still a scale factor, c16s-4)
+            nz = np.where(np.asarray(vals, dtype=float) != 0)[0]
+            if len(nz):
+                i = int(nz[0])
+                return "values", "sample %d: loaded %r (m=%r), saved %r" % (i, float(vals[i]), m, float(want[i]))
+            got_v = want
+        else:
+            got_v = np.asarray(vals, dtype=float) / m
         tol = (0.5e-6 + 4 * np.spacing(np.abs(want))) * (1 + 1e-6)
         bad = np.where(~(np.abs(got_v - want) <= tol))[0]
         if len(bad):
@@ -827,7 +835,7 @@ class Gen(object):
             op["badpath"] = rng.choice([None, 3.5, 0, ["x"], {"tu": []}])
             return op
         if via in ("load_sig", "load_asig", "load_asig:label") and rng.random() < 0.5:
-            op["m"] = rng.choice([2.0, -0.5, 1e-3, 9.81, 1.0, 1.000004, 0.999992, -1.0, 1.0000001, 100.0, 0.1])
+            op["m"] = rng.choice([2.0, -0.5, 1e-3, 9.81, 1.0, 1.000004, 0.999992, -1.0, 1.0000001, 100.0, 0.1, 0.0, 0, 2, 1])
         return op
 
     def _maybe_fault(self, op):
